@@ -123,9 +123,11 @@ theorem sendClose_PP (s : S) (c : Option Nat) (r : Option Bytes) : PP s (sendClo
     · exact sendCloseFrame_PP _ _ _ _
 
 theorem dropConnection_PP (s : S) (a : Bool) : PP s (dropConnection s a) := by
-  unfold dropConnection
+  unfold dropConnection flushQueue
   split
-  · exact PP.of_notOpen (by simp [S.emit]) (Nat.le_refl _) rfl (Or.inl rfl) (Or.inl rfl)
+  · cases a
+    · exact PP.of_notOpen (by simp [S.emit]) (Nat.le_refl _) rfl (Or.inl rfl) (Or.inl rfl)
+    · exact PP.of_notOpen (by simp [S.emit]) (Nat.le_refl _) rfl (Or.inl rfl) (Or.inl rfl)
   · exact PP.refl s
 
 theorem failConnection_PP (s : S) (code : Nat) : PP s (failConnection s code) := by
@@ -201,18 +203,18 @@ theorem connectionLost_PP (s : S) : PP s (connectionLost s) := by
   split
   · exact PP.refl s
   · refine PP.of_notOpen ?_ ?_ ?_ ?_ ?_
-    · unfold reportClose markClosed cancelOnLost
-      split <;> split <;> (try split) <;> simp_all [S.emit]
-    · unfold reportClose markClosed cancelOnLost
-      split <;> split <;> (try split) <;> exact Nat.le_refl _
-    · unfold reportClose markClosed cancelOnLost
-      split <;> split <;> (try split) <;> rfl
+    · unfold reportClose unsentUnclean markClosed cancelOnLost
+      split <;> split <;> (try split) <;> (try split) <;> simp_all [S.emit]
+    · unfold reportClose unsentUnclean markClosed cancelOnLost
+      split <;> split <;> (try split) <;> (try split) <;> exact Nat.le_refl _
+    · unfold reportClose unsentUnclean markClosed cancelOnLost
+      split <;> split <;> (try split) <;> (try split) <;> rfl
     · right
-      unfold reportClose markClosed cancelOnLost
-      split <;> split <;> (try split) <;> rfl
+      unfold reportClose unsentUnclean markClosed cancelOnLost
+      split <;> split <;> (try split) <;> (try split) <;> rfl
     · right
-      unfold reportClose markClosed cancelOnLost
-      split <;> split <;> (try split) <;> rfl
+      unfold reportClose unsentUnclean markClosed cancelOnLost
+      split <;> split <;> (try split) <;> (try split) <;> rfl
 
 theorem sendAutoPing_PP (s : S) : PP s (sendAutoPing s) := by
   intro k
